@@ -65,7 +65,7 @@ def run_replay(chk, tier):
     beh = vlib.replay_lines(r)
     nex = len(beh)
     depth = 9
-    w = vlib.tlc(SPECD, "ServiceReplay", "MC_svc_replay_walk.cfg", workers=1, simulate=(300 if q else 4000), depth=depth * 8 + 10,
+    w = vlib.tlc(SPECD, "ServiceReplay", "MC_svc_replay_walk.cfg", workers=1, simulate=(200 if q else 4000), depth=depth * 8 + 10,
                  seed=chk.seed, timeout=1800)
     if w.errors or w.invariant_violated:
         raise vlib.ToolError(f"ServiceReplay (walks) does not satisfy its own invariants: {w.errors[:2]}")
@@ -291,7 +291,7 @@ def run(prop, tier):
     run_replay(chk, tier)
     t2 = time.time()
     rng = random.Random(chk.seed * 7919 + 101)
-    scen = gen_scenarios(rng, 100 if tier == "quick" else 1500)
+    scen = gen_scenarios(rng, 80 if tier == "quick" else 1500)
     for i, s in enumerate(scen):
         s["id"] = i + 1
         s["seed"] = chk.seed * 100000 + i
@@ -336,4 +336,6 @@ def replay(prop, path):
             if x["mismatches"]:
                 log("replayed behaviour:", json.dumps(x["mismatches"][0]))
                 chk.violations.append(x)
+        if not chk.violations:
+            log("replayed behaviour: results and output equal TLC's on the current tree (5 executions)")
     return 1 if chk.violations or rc else 0
